@@ -1129,6 +1129,10 @@ def mac_layout(p):
         es = ["E0"] * n
     elif p["enc"] == "list_dup01":
         es = ["E0", "E0"] + [f"E{i}" for i in range(2, n)]
+    elif p["enc"] == "list_dup_ends":
+        es = ["E0"] + [f"E{i}" for i in range(1, n - 1)] + ["E0"]      # first and last user share an instance, the middle ones differ
+    elif p["enc"] == "list_dup_last2":
+        es = [f"E{i}" for i in range(n - 2)] + [f"E{n - 2}", f"E{n - 2}"]
     else:
         es = [f"E{i}" for i in range(n)]
     if p["dec"] == "list" and n > 1:
@@ -1916,6 +1920,10 @@ def build_items():
                     mac.append(dict(n=n, enc=enc, dec=dec, ashape=a))
         if n >= 2:
             mac.append(dict(n=n, enc="list_dup01", dec="list", ashape=0))
+        if n >= 3:
+            mac.append(dict(n=n, enc="list_dup_ends", dec="list", ashape=0))
+            mac.append(dict(n=n, enc="list_dup_ends", dec="shared", ashape=2))
+            mac.append(dict(n=n, enc="list_dup_last2", dec="list", ashape=0))
     for ch in _chunks(mac, 40):
         add("mac", ch)
     # ---- add/remove histories -------------------------------------------------------------------------------
